@@ -24,6 +24,13 @@ structure Revision where
   errorStmt : Text := []
 deriving DecidableEq, Repr, Inhabited
 
+/-- `r.Type.Has(RevisionTypeResolved)`: the revision was marked by `atlas migrate set`. -/
+def Revision.resolved (r : Revision) : Bool := r.typ / 4 % 2 == 1
+
+/-- `(*Revision).partially`: partially applied and not manually resolved, i.e. its execution is to
+be resumed (sql/migrate/migrate.go). -/
+def Revision.partially (r : Revision) : Bool := r.applied != r.total && !r.resolved
+
 /-- A migration file as the executor sees it: name/version/description, its scanned statements
 (the scanner is modelled separately, `Atlas.Lex`), whether it carries the checkpoint directive and
 its entry of the sum file. -/
